@@ -250,6 +250,13 @@ void ProcessCMD(
         DecodeLine(pCMDRecs, CMDRecCnt, EnvLine, ErrProc);
     }
 
+    /* the callers keep track of MAXPARAM arguments (CMDProcessed): refuse the first one beyond */
+
+    if (argc > MAXPARAM) {
+        ErrProc(False, argv[MAXPARAM]);
+        argc = MAXPARAM;
+    }
+
     for (z = 0; z < argc; z++) {
         Unprocessed[z] = (z != 0);
     }
